@@ -460,6 +460,50 @@ def loadCircuit {Q P : Type} (cfg : Cfg) (phases : List Int) (w : World Q P) (ci
   ({ w with comp := if user then cp' else w.comp,
             proc := { pulses := some tok, phase := cp'.phase } }, tok)
 
+/-! ## Histories: every public operation is a step `World → Call → World × Ret` -/
+
+inductive Call (Q : Type)
+  | run (st : Q) (cb : Option Ref) (mr : Option (List Int))     -- `sim.run(state, cbits, measure_results)`
+  | stat (st : Q) (cb : Option Ref)                              -- `sim.run_statistics(state, cbits)`
+  | init (st : Q) (cb : Option Ref) (mr : Option (List Int))    -- `sim.initialize(…)`
+  | step                                                         -- `sim.step()`
+  | getState                                                     -- `sim.state`
+  | query      -- any circuit-level query or transformation (compute_unitary, propagators, resolve_gates, …,
+               -- pulse queries of a processor): writes no attribute of any object
+  | compile (circ : Nat) (args : Option (List (Nat × Int)))     -- `compiler.compile(circuit, args=…)`
+  | load (circ : Nat) (user : Bool)                              -- `processor.load_circuit(qc, compiler=…)`
+
+inductive Ret (Q P : Type)
+  | result (r : Except Err (Result Q P))
+  | unit (e : Option Err)
+  | state (s : Except Err (Option Q))
+  | program (tok : Nat × List (Nat × Int))
+  | nothing
+
+def exec {Q P : Type} [One P] [Mul P] (B : Backend Q P) (cfg : Cfg) (mode : Mode) (c : Circuit) (phases : List Int)
+    (w : World Q P) : Call Q → World Q P × Ret Q P
+  | .run st cb mr => let r := run B cfg mode c w st cb mr; (r.1, .result r.2)
+  | .stat st cb => let r := runStatistics B cfg mode c w st cb; (r.1, .result r.2)
+  | .init st cb mr => (initRun cfg c w st cb mr, .unit none)
+  | .step => let r := step B cfg mode c w; (r.1, .unit r.2)
+  | .getState =>
+    match w.sim with
+    | none => (w, .state (.error .attr))
+    | some s =>
+      match getter cfg s.f with
+      | (f, none) => ({ w with sim := some { s with f := f } }, .state (.ok f.st))
+      | (f, some e) => ({ w with sim := some { s with f := f } }, .state (.error e))
+  | .query => (w, .nothing)
+  | .compile circ args =>
+    let r := compile cfg phases w.comp circ args
+    ({ w with comp := r.1 }, .program r.2)
+  | .load circ user => let r := loadCircuit cfg phases w circ user; (r.1, .program r.2)
+
+/-- the world after a history -/
+def execAll {Q P : Type} [One P] [Mul P] (B : Backend Q P) (cfg : Cfg) (mode : Mode) (c : Circuit) (phases : List Int)
+    (w : World Q P) (calls : List (Call Q)) : World Q P :=
+  calls.foldl (fun w call => (exec B cfg mode c phases w call).1) w
+
 /-! ## Exact backend used by the driver: real integer amplitudes times `(1/√2)^k`
 
 A state is an ensemble of unnormalised real vectors sharing one exponent `k`: a real ket is
